@@ -97,14 +97,14 @@ static void body_init() {
     VASSERT(C01, spec_activated(f), "enter() activates the machine");
     post_invariant(f);
     for (int s = 0; s < VM_NS; ++s) {
-      VASSERT(C03, g_enter_count[s] == (spec_active(f, s) ? 1 : 0) && g_exit_count[s] == 0, "initial activation enters exactly the states that become active, once");
+      if (VM_HAS_STUB(s)) VASSERT(C03, g_enter_count[s] == (spec_active(f, s) ? 1 : 0) && g_exit_count[s] == 0, "initial activation enters exactly the states that become active, once");
       if (VM_SPEC[s].kind == K_COMPO && spec_active(f, s) && (VM_SPEC[s].strategy == ST_COMPOSITE || VM_SPEC[s].strategy == ST_RESUMABLE))
         VASSERT(C02, r.compoActive[VM_SPEC[s].fork] == 0, "first activation: composite and resumable regions start in their first sub-state");
       if (VM_SPEC[s].kind == K_COMPO) VASSERT(C02, r.compoResumable[VM_SPEC[s].fork] == INVALID_PRONG, "first activation: nothing is resumable");
     }
     f.exit();
     VASSERT(C01, !spec_activated(f) && inv_config(f) && inv_quiescent(f), "exit() deactivates the machine");
-    for (int s = 0; s < VM_NS; ++s) VASSERT(C03, !g_entered[s] && g_exit_count[s] == g_enter_count[s], "exit(): every entered state has been exited exactly once");
+    for (int s = 0; s < VM_NS; ++s) if (VM_HAS_STUB(s)) VASSERT(C03, !g_entered[s] && g_exit_count[s] == g_enter_count[s], "exit(): every entered state has been exited exactly once");
   }
 }
 static void body_exit_enter() {
@@ -112,7 +112,7 @@ static void body_exit_enter() {
   Snapshot old; snap(f, old);
   f.exit();
   VASSERT(C01, !spec_activated(f) && inv_config(f) && inv_quiescent(f), "exit() from any configuration deactivates the machine");
-  for (int s = 0; s < VM_NS; ++s) VASSERT(C03, !g_entered[s] && g_exit_count[s] == (old.on[s] ? 1 : 0) && g_enter_count[s] == 0, "exit(): every active state is exited exactly once, nothing is entered");
+  for (int s = 0; s < VM_NS; ++s) if (VM_HAS_STUB(s)) VASSERT(C03, !g_entered[s] && g_exit_count[s] == (old.on[s] ? 1 : 0) && g_enter_count[s] == 0, "exit(): every active state is exited exactly once, nothing is entered");
   f.enter();
   VASSERT(C01, spec_activated(f), "enter() after exit() activates the machine again");
   post_invariant(f);
@@ -129,7 +129,7 @@ static void body_reset() {
     if (VM_SPEC[s].kind == K_COMPO && spec_active(f, s) && (VM_SPEC[s].strategy == ST_COMPOSITE || VM_SPEC[s].strategy == ST_RESUMABLE))
       VASSERT(C02, r.compoActive[VM_SPEC[s].fork] == 0, "reset(): regions choose by their declared default, as on first activation");
     if (VM_SPEC[s].kind == K_COMPO) VASSERT(C02, r.compoResumable[VM_SPEC[s].fork] == INVALID_PRONG, "reset(): nothing is resumable");
-    VASSERT(C03, g_exit_count[s] == (old.on[s] ? 1 : 0) && g_enter_count[s] == (spec_active(f, s) ? 1 : 0), "reset(): every active state exited once, every newly active state entered once");
+    if (VM_HAS_STUB(s)) VASSERT(C03, g_exit_count[s] == (old.on[s] ? 1 : 0) && g_enter_count[s] == (spec_active(f, s) ? 1 : 0), "reset(): every active state exited once, every newly active state entered once");
   }
 }
 
@@ -207,4 +207,72 @@ static void body_update(unsigned cfg, int issuer, int kind, int dest) {
   } else {
     post_single_request(f, old, kind, dest);
   }
+}
+
+// ------------------------------------------------------------------------------------------------ C05: delivery order
+// static traversal keys from the declaration: head-first = depth-first id; subs-first = post-order index
+static int postorder_index(int s) {            // number of states visited before s in post-order
+  int n = 0;
+  for (int t = 0; t < VM_NS; ++t) {
+    if (t == s) continue;
+    if (spec_is_ancestor_or_self(s, t)) ++n;                 // descendants come first
+    else if (!spec_is_ancestor_or_self(t, s) && t < s) ++n;  // earlier subtrees that do not contain s
+  }
+  return n;
+}
+#ifndef VM_BOTTOM_UP
+#define VM_BOTTOM_UP 0
+#endif
+static bool head_first(int phase) {
+  const bool post = phase == PH_POST_UPDATE || phase == PH_POST_REACT;
+  const bool react_family = phase == PH_PRE_REACT || phase == PH_REACT || phase == PH_POST_REACT || phase == PH_QUERY;
+  return react_family && VM_BOTTOM_UP ? post : !post;
+}
+static int order_key(int s, int phase) { return head_first(phase) ? s : postorder_index(s); }
+// the recorded sequence must be: for each phase in turn, the active states in key order, cut right after the consumer
+static void check_sequence(const Instance& f, int first_phase, int last_phase, bool consumable) {
+  unsigned pos = 0;
+  for (int ph = first_phase; ph <= last_phase; ++ph) {
+    int expected = 0, cut_key = 1000;
+    if (consumable && g_consume_phase == ph && g_consumer >= 0 && g_consumer < VM_NS && spec_active(f, g_consumer)) cut_key = order_key(g_consumer, ph);
+    for (int s = 0; s < VM_NS; ++s) if (spec_active(f, s) && VM_HAS_STUB(s) && order_key(s, ph) <= cut_key) ++expected;
+    int prev_key = -1;
+    for (int k = 0; k < expected; ++k) {
+      VASSERT(C05, pos < g_seq_len && g_seq_phase[pos] == ph, "each phase delivers to exactly the active states (none missing, none extra) up to the consuming state");
+      const int s = pos < sizeof g_seq_state ? g_seq_state[pos] : 0;
+      VASSERT(C05, spec_active(f, s), "inactive states receive nothing");
+      VASSERT(C05, order_key(s, ph) > prev_key && order_key(s, ph) <= cut_key, "delivery follows the documented order and stops at the consuming state");
+      prev_key = order_key(s, ph); ++pos;
+    }
+  }
+  VASSERT(C05, pos == g_seq_len, "nothing is delivered beyond the documented sequence");
+}
+static void body_order_update(unsigned cfg) {
+  CONFIGURED(f, cfg);
+  g_issuer = -1; g_issuer2 = -1; g_consumer = -1;
+  Snapshot old; snap(f, old);
+  f.update();
+  check_sequence(f, PH_PRE_UPDATE, PH_POST_UPDATE, false);
+  VASSERT(C05, same_config(f, old), "update() without requests leaves the configuration alone");
+}
+static void body_order_react(unsigned cfg) {
+  CONFIGURED(f, cfg);
+  g_issuer = -1; g_issuer2 = -1;
+  g_consumer = nd_u8(); g_consume_phase = nd_u8();
+  VASSUME(g_consume_phase >= PH_PRE_REACT && g_consume_phase <= PH_POST_REACT);
+  Snapshot old; snap(f, old);
+  Ev e{1};
+  f.react(e);
+  check_sequence(f, PH_PRE_REACT, PH_POST_REACT, true);
+  VASSERT(C05, same_config(f, old), "react() without requests leaves the configuration alone");
+}
+static void body_order_query(unsigned cfg) {
+  CONFIGURED(f, cfg);
+  g_consumer = nd_u8(); g_consume_phase = PH_QUERY;
+  Snapshot old; snap(f, old);
+  const Instance& cf = f;
+  Ev e{2};
+  cf.query(e);
+  check_sequence(f, PH_QUERY, PH_QUERY, true);
+  VASSERT(C05, same_config(f, old) && inv_quiescent(f) && no_lifecycle(), "query() changes nothing");
 }
